@@ -10,6 +10,7 @@
 import Nq.Basic
 import Nq.QmailC
 import Nq.Gen.Safe
+import Nq.Datetime
 
 namespace Nq.Received
 open Nq Nq.QmailC
@@ -40,7 +41,12 @@ def fmtU (n : Nat) : Bytes := digitsAux (n + 1) n []
 /-- `fmt_uint0(s,u,n)`: decimal, zero-padded to at least `n` digits -/
 def fmtU0 (u n : Nat) : Bytes := List.replicate (n - (fmtU u).length) 48 ++ fmtU u
 
-/-! ### datetime_tai (for non-negative times) -/
+/-! ### datetime_tai (for non-negative times)
+
+The statement-by-statement model of datetime.c is `Nq.Datetime.tai` (over ℤ, with `wday`/`yday`); it is proved to be the
+proleptic Gregorian calendar in `Nq/Lemmas/Datetime.lean`.  `received()` calls it with `now()`; this is the same function
+restricted to `t ≥ 0` (all fields are then non-negative, `Nq.Lemmas.C07Date.datetimeTai_fields`) with the fields
+`date822fmt` reads. -/
 
 structure DT where
   hour : Nat
@@ -52,27 +58,9 @@ structure DT where
   deriving DecidableEq, Repr
 
 def datetimeTai (t : Nat) : DT :=
-  let tod := t % 86400
-  let d0 : Int := (Int.ofNat (t / 86400)) - 11017           -- day 0 is march 1, 2000
-  let y0 : Int := 5 + Int.tdiv d0 146097
-  let d1 : Int := Int.tmod d0 146097
-  let y1 : Int := if d1 < 0 then y0 - 1 else y0
-  let d2 : Int := if d1 < 0 then d1 + 146097 else d1
-  let year := y1.toNat * 4
-  let day := d2.toNat
-  let year2 := if day = 146096 then year + 3 else year + day / 36524
-  let day2 := if day = 146096 then 36524 else day % 36524
-  let year3 := (year2 * 25 + day2 / 1461) * 4
-  let day3 := day2 % 1461
-  let year4 := if day3 = 1460 then year3 + 3 else year3 + day3 / 365
-  let day4 := if day3 = 1460 then 365 else day3 % 365
-  let day5 := day4 * 10
-  let mon := (day5 + 5) / 306
-  let day6 := (day5 + 5 - 306 * mon) / 10
-  { hour := tod / 3600, min := tod % 3600 / 60, sec := tod % 3600 % 60,
-    mday := day6 + 1,
-    mon := if mon ≥ 10 then mon - 10 else mon + 2,
-    year := if mon ≥ 10 then year4 + 1 else year4 }
+  let d := Nq.Datetime.tai (Int.ofNat t)
+  { hour := d.hour.toNat, min := d.min.toNat, sec := d.sec.toNat, mday := d.mday.toNat, mon := d.mon.toNat,
+    year := d.year.toNat }
 
 def months : List Bytes := [[74, 97, 110], [70, 101, 98], [77, 97, 114], [65, 112, 114], [77, 97, 121], [74, 117, 110],
   [74, 117, 108], [65, 117, 103], [83, 101, 112], [79, 99, 116], [78, 111, 118], [68, 101, 99]]
